@@ -157,6 +157,7 @@ Proof.
     destruct (rp_phase st); try (inversion H; subst; exact Hf).
     - destruct (progressing sp st s w br); try discriminate; inversion H; subst; exact Hf.
     - destruct (rp_term st) as [[|]|]; try discriminate; [inversion H; subst; exact Hf|].
+      destruct (wl_exists w && negb (wl_consistent w)); [inversion H; subst; exact Hf|].
       destruct (do_finalising _ _ _ _ _ _) as [[[d s1] b'] a]. inversion H; subst; exact Hf.
     - destruct (do_finalising _ _ _ _ _ _) as [[[d s1] b'] a]. inversion H; subst; exact Hf. }
   destruct (rs_deleting sp); [|discriminate]. split; [reflexivity|].
@@ -384,6 +385,7 @@ Proof.
     destruct (progressing sp st s w br); [congruence|discriminate|discriminate].
   - (* Terminating *)
     specialize (Hterm eq_refl). destruct (rp_term st) as [[|]|]; [discriminate| |congruence].
+    destruct (wl_exists w && negb (wl_consistent w)); [discriminate|].
     destruct (do_finalising _ _ _ _ _ _) as [[[d s1] b'] an]. discriminate.
   - destruct (do_finalising _ _ _ _ _ _) as [[[d s1] b'] an]. discriminate.
 Qed.
